@@ -138,6 +138,23 @@ CLAIMS = {
         technique="Lean 4 proof (sum/padding commutation, fold invariant on sorted list, rounding bounds) "
                   "+ differential correspondence",
         ref="DESIGN.md §6 C07"),
+    "C06": dict(
+        text="Lean 4 theorems on the per-axis copy schedule of compute_dyadic_downscaling (half_chunk, "
+             "chunk_fetch_factor, parts A/B, the shape test added by the fix): with compatible chunk sizes "
+             "(f | old chunk, new chunk = half or twice half) for ALL sizes, chunk sizes and chunk positions "
+             "every copy succeeds and every voxel of the new level is computed from exactly the old voxels the "
+             "global downscale uses (axis_correct), and that source block lies in one old chunk; kernel-checked "
+             "witnesses that the half=1/fetch-factor-4 case (repaired defect F24) and chunk size 1 on a halved "
+             "axis are refused with an error. Tie/oracle: every transition run in isolation on the real code "
+             "with poisoned np.empty (two patterns), the new level read back and compared with the real "
+             "downscaler applied to the whole previous level; ok/error outcome compared with the Lean plan, "
+             "incl. arbitrary non-power-of-two hand-made chunk sizes.",
+        note="Trusted: Lean kernel; standard axioms (Mathlib ring for two product identities); hand-written "
+             "per-axis model (tie = sampling); 'error-or-correct' outside the compatible case is tested, not "
+             "proved; block-locality of the downscalers from C07.",
+        technique="Lean 4 proof (linear extent arithmetic per axis) + differential correspondence with "
+                  "whole-array oracle",
+        ref="DESIGN.md §6 C06"),
 }
 
 ALL = ["C%02d" % i for i in range(1, 21)]
